@@ -24,14 +24,18 @@
 package main
 
 import (
+	"bytes"
 	"encoding/json"
 	"flag"
 	"fmt"
 	"io"
 	"os"
+	"os/exec"
+	"path/filepath"
 	"runtime"
 	"runtime/pprof"
 	"sort"
+	"strings"
 	"sync"
 	"sync/atomic"
 
@@ -49,6 +53,10 @@ type input struct {
 	// address manager
 	MgrTxs [][]mop `json:"mgrtxs,omitempty"` // committed prefix: one list per db transaction
 	MgrOps [][]mop `json:"mgrops,omitempty"` // operations probed (each list = one db transaction)
+	// the probes run with the manager locked
+	Locked bool `json:"locked,omitempty"`
+	// the file holds nothing but the empty namespace bucket (probes of Create)
+	Fresh bool `json:"fresh,omitempty"`
 	// restrict the fault positions (shrunk replays); empty = all of 1..n
 	Ks []int `json:"ks,omitempty"`
 }
@@ -58,6 +66,8 @@ type kOut struct {
 	Err    bool     `json:"err"`   // the operation reported an error
 	Fired  bool     `json:"fired"` // the selected write was reached
 	Callee string   `json:"callee"`
+	Call   int      `json:"call,omitempty"` // index of the call of the transaction during which the fault fired
+	Cats   []string `json:"cats"`           // categories of queries that answer differently after the rollback
 	Text   string   `json:"text,omitempty"`
 	Kinds  []string `json:"kinds,omitempty"` // kind@site
 	Detail []string `json:"detail,omitempty"`
@@ -70,11 +80,13 @@ type probe struct {
 	Clean  string   `json:"clean"` // "ok" | "err"
 	Result string   `json:"result"`
 	Calls  []string `json:"calls"` // Op:callee of every mutating call of the clean run
+	Delta  adelta   `json:"delta"` // what the committed clean run changed in the file (abstract view)
 	Ks     []kOut   `json:"ks"`
 	Skip   string   `json:"skip,omitempty"`
 }
 
 type obsOut struct {
+	State  *adump  `json:"state"` // the file the probes start from (abstract view)
 	Probes []probe `json:"probes"`
 }
 
@@ -164,6 +176,12 @@ func finish(co *caseOut) {
 	seen := map[string]bool{}
 	co.Oracle = []string{}
 	tags := map[string]bool{"kind_" + co.In.Kind: true}
+	if co.In.Locked {
+		tags["manager_locked"] = true
+	}
+	if co.In.Fresh {
+		tags["fresh_file"] = true
+	}
 	for _, p := range co.Obs.Probes {
 		tags["op_"+p.Name] = true
 		tags[fmt.Sprintf("writes_%s", bucketN(p.N))] = true
@@ -184,6 +202,43 @@ func finish(co *caseOut) {
 		co.Tags = append(co.Tags, t)
 	}
 	sort.Strings(co.Tags)
+}
+
+// runInChild runs one state in a worker process (this binary, -child -replay).
+func runInChild(in input) (*caseOut, error) {
+	dir, err := tempDir("vh-c10-job-")
+	if err != nil {
+		return nil, err
+	}
+	defer os.RemoveAll(dir)
+	job := filepath.Join(dir, "job.jsonl")
+	b, err := json.Marshal(struct {
+		In input `json:"in"`
+	}{in})
+	if err != nil {
+		return nil, err
+	}
+	if err := os.WriteFile(job, append(b, '\n'), 0o600); err != nil {
+		return nil, err
+	}
+	exe, err := os.Executable()
+	if err != nil {
+		return nil, err
+	}
+	cmd := exec.Command(exe, "-child", "-replay", job)
+	// one state is sequential work; the forced collections are cheaper with few threads
+	cmd.Env = append(os.Environ(), "GOMAXPROCS=2")
+	var stderr bytes.Buffer
+	cmd.Stderr = &stderr
+	outb, err := cmd.Output()
+	if err != nil {
+		return nil, fmt.Errorf("worker process: %v: %s", err, strings.TrimSpace(stderr.String()))
+	}
+	co := &caseOut{}
+	if err := json.Unmarshal(bytes.TrimSpace(outb), co); err != nil {
+		return nil, fmt.Errorf("worker process output: %v", err)
+	}
+	return co, nil
 }
 
 func bucketN(n int) string {
@@ -207,7 +262,10 @@ func bucketN(n int) string {
 func main() {
 	var kind, cpuprof string
 	var perHist int
+	var child, inproc bool
 	core.Main("c10", func(fs *flag.FlagSet) {
+		fs.BoolVar(&child, "child", false, "internal: run the cases of the replay file as a worker process")
+		fs.BoolVar(&inproc, "inproc", false, "run every state in this process (no worker processes)")
 		fs.StringVar(&cpuprof, "cpuprofile", "", "write a CPU profile (development aid)")
 		fs.StringVar(&kind, "kind", "both", "tx|mgr|both")
 		fs.IntVar(&perHist, "states", 2, "states sampled per generated history")
@@ -243,7 +301,9 @@ func main() {
 				if err != nil {
 					return err
 				}
-				co.Tags = append(co.Tags, "replay")
+				if !child {
+					co.Tags = append(co.Tags, "replay")
+				}
 				out.Emit(co)
 				return nil
 			})
@@ -260,6 +320,13 @@ func main() {
 			nTx, nMgr = 0, c.N
 		}
 		var ins []input
+		// the two creation probes do not depend on a history: once per run
+		if kind != "mgr" {
+			ins = append(ins, input{Kind: "tx", Fresh: true, TxOps: []txsim.Event{{K: "create"}}})
+		}
+		if kind != "tx" {
+			ins = append(ins, input{Kind: "mgr", Fresh: true, MgrOps: [][]mop{{{K: "create"}}, {{K: "create", Wo: true}}}})
+		}
 		for i, done := 0, 0; done < nTx; i++ {
 			r := gen.New(c.Seed, int64(10000+i))
 			g := genTxStates(r, perHist, nTx-done)
@@ -278,12 +345,27 @@ func main() {
 				return fmt.Errorf("mgr generator does not produce states")
 			}
 		}
-		// the states are independent: run them on a few workers, emit in order
+		// the states are independent: run them on a few workers, emit in order.
+		// A manager state goes to a worker PROCESS: every fresh manager
+		// derives its keys through snacl, which forces a garbage collection
+		// that stops every goroutine of the process.
 		outs := make([]*caseOut, len(ins))
 		errs := make([]error, len(ins))
 		workers := runtime.NumCPU()
-		if workers > 8 {
-			workers = 8
+		if workers > 12 {
+			workers = 12
+		}
+		// the costly states first
+		order := make([]int, 0, len(ins))
+		for i := range ins {
+			if ins[i].Kind == "mgr" {
+				order = append(order, i)
+			}
+		}
+		for i := range ins {
+			if ins[i].Kind != "mgr" {
+				order = append(order, i)
+			}
 		}
 		var wg sync.WaitGroup
 		next := int64(-1)
@@ -292,14 +374,18 @@ func main() {
 			go func() {
 				defer wg.Done()
 				for {
-					i := int(atomic.AddInt64(&next, 1))
-					if i >= len(ins) {
+					j := int(atomic.AddInt64(&next, 1))
+					if j >= len(order) {
 						return
 					}
-					if ins[i].Kind == "tx" {
+					i := order[j]
+					switch {
+					case ins[i].Kind == "tx":
 						outs[i], errs[i] = runTxCase(ins[i])
-					} else {
+					case inproc:
 						outs[i], errs[i] = runMgrCase(ins[i])
+					default:
+						outs[i], errs[i] = runInChild(ins[i])
 					}
 				}
 			}()
